@@ -319,6 +319,13 @@ func runKV(c KVCase, o *Obs) error {
 		h := hs[s.H]
 		where := fmt.Sprintf("step %d (%s h%d)", i, s.Op, s.H)
 		kn := keyName(s.Key)
+		// what the other handles report as their versions must not move under a step of this one
+		rootsBefore := map[int]string{}
+		for j, oh := range hs {
+			if r, err := oh.db.Roots(); err == nil {
+				rootsBefore[j] = strings.Join(r, ",")
+			}
+		}
 		switch s.Op {
 		case "set":
 			val := fmt.Sprintf("v%d", s.T)
@@ -367,6 +374,7 @@ func runKV(c KVCase, o *Obs) error {
 				return fmt.Errorf("%s: %v", where, err)
 			}
 			if s.H2 != s.H {
+				o.Class("clone-replaced-a-handle")
 				hs[s.H2].db.Cancel()
 				hs[s.H2] = &kvHandle{db: cl, model: h.model.clone(), emptied: h.emptied}
 			} else {
@@ -522,6 +530,27 @@ func runKV(c KVCase, o *Obs) error {
 		if err := check(hs[s.H], where); err != nil {
 			return err
 		}
+		// the other handles are untouched by this step: same content, same versions
+		for j, oh := range hs {
+			if j == s.H || (s.Op == "clone" && j == s.H2) {
+				continue
+			}
+			if err := check(oh, fmt.Sprintf("%s: handle %d, which did not take part in the step", where, j)); err != nil {
+				return err
+			}
+			if before, ok := rootsBefore[j]; ok {
+				r, err := oh.db.Roots()
+				if err != nil {
+					return fmt.Errorf("%s: Roots() of handle %d, which did not take part in the step: %v", where, j, err)
+				}
+				if strings.Join(r, ",") != before {
+					return fmt.Errorf("%s: Roots() of handle %d, which did not take part in the step, went from [%s] to %v", where, j, before, r)
+				}
+				if s.Op == "commit" {
+					o.Class("other-handle-roots-checked-across-commit")
+				}
+			}
+		}
 	}
 	if merges > 0 && (o.Classes["set-older-than-stored"] > 0 || o.Classes["tombstone-older-than-value"] > 0) {
 		o.NonTrivial = true
@@ -535,4 +564,35 @@ func TestC17_KV(t *testing.T) {
 	st := newStats(t, "C17", "TestC17_KV", "state machine directly on kv.DB over the fake store: 1-3 handles, 3-45 steps of Set/Tombstone(key, time) with unique times in arbitrary order, Commit, Clone, Reopen (merges all current versions in a generated order through the permutation hook), RemoveTombstones(before), Diff(handle, handle), TraceHistory(key); modes default / OnConflictMerged callback / CustomMerge (the documented join supplied by the harness); gob and JSON node codecs, three node formats, branch factor 2-4096; after every step Get, IsTombstoned, Size and a full cursor scan (values, times, tombstones) must equal a map model (later time wins, a tombstone beats every value, the earliest tombstone is kept, purge forgets); Diff must report exactly the keys whose visible value differs, once, with both values; TraceHistory must start at the current value, yield only (time,value) pairs that were Set, in strictly decreasing time; the callback must only see two different live values held by the merged versions; non-trivial = a merge of >=2 versions after a write older than what was stored")
 	st.Assume = append(st.Assume, "the gob version-object format (kv_version 0) is only read, never written, by this code and its type lives in an internal package: not reachable from the harness module")
 	checkRapid(t, st, genKVCase, runKV)
+}
+
+// C11 at the kv level: what a handle reports as its versions (kv.DB.Roots, which s3db_version
+// prints) belongs to that handle. The state machine above with more Clone and Commit steps;
+// the invariant "a step of one handle moves neither the content nor the Roots() of another"
+// is checked by runKV after every step.
+func genKVHandlesCase(t *rapid.T) KVCase {
+	c := genKVCase(t)
+	if c.NH < 2 {
+		c.NH = 2
+	}
+	for i := range c.Steps {
+		if c.Steps[i].Op == "diff" || c.Steps[i].Op == "trace" || c.Steps[i].Op == "purge" {
+			c.Steps[i].Op = rapid.SampledFrom([]string{"clone", "commit", "commit"}).Draw(t, "hop")
+			c.Steps[i].H2 = rapid.IntRange(0, c.NH-1).Draw(t, "hh2")
+		}
+	}
+	return c
+}
+
+func runKVHandles(c KVCase, o *Obs) error {
+	err := runKV(c, o)
+	o.NonTrivial = o.Classes["other-handle-roots-checked-across-commit"] > 0 && o.Classes["clone-replaced-a-handle"] > 0
+	return err
+}
+
+func init() { register("TestC11_KVHandles", runKVHandles) }
+
+func TestC11_KVHandles(t *testing.T) {
+	st := newStats(t, "C11", "TestC11_KVHandles", "the kv state machine of C17 (1-3 handles; Set, Tombstone, Commit, Clone into another handle slot, Reopen) with a third of the steps Clone or Commit: after every step every handle that did not take part in it must still show its own content (Get, Size, full scan against its model) and report the same Roots() as before (the names s3db_version prints): a clone, such as the snapshot a transaction returns to on ROLLBACK, keeps naming the versions it was made from whatever its origin commits afterwards; non-trivial = a clone that replaced a handle and a commit on another handle checked afterwards")
+	checkRapid(t, st, genKVHandlesCase, runKVHandles)
 }
